@@ -1108,6 +1108,12 @@ func vVisit(g *vGen, rr RR) bool {
 			g.fail("gwtype")
 		}
 		g.gateway(x.GatewayType&0x7f, &x.GatewayAddr, &x.GatewayHost)
+	case *SVCB:
+		g.svcb(x)
+	case *HTTPS:
+		g.svcb(&x.SVCB)
+	case *APL:
+		g.apl(x)
 	case *HIP:
 		var hit, pk []byte
 		if !g.check {
@@ -1166,7 +1172,7 @@ func vVisit(g *vGen, rr RR) bool {
 	return true
 }
 
-// vTypesSimple lists the registry types covered by vVisit (OPT, APL, SVCB, HTTPS have their own harnesses).
+// vTypesSimple lists the registry types covered by vVisit (OPT has its own generator, zz_verif_gen_opt.go).
 var vTypesSimple = []uint16{
 	TypeA, TypeAAAA, TypeNS, TypeMD, TypeMF, TypeCNAME, TypeMB, TypeMG, TypeMR, TypePTR, TypeSOA, TypeMINFO, TypeMX, TypeHINFO,
 	TypeTXT, TypeSPF, TypeAVC, TypeNINFO, TypeRESINFO, TypeUINFO, TypeX25, TypeISDN, TypeGPOS, TypeNULL, TypeRP, TypeTALINK,
@@ -1174,7 +1180,7 @@ var vTypesSimple = []uint16{
 	TypeCDNSKEY, TypeRKEY, TypeOPENPGPKEY, TypeDHCID, TypeDS, TypeCDS, TypeDLV, TypeTA, TypeSSHFP, TypeTLSA, TypeSMIMEA,
 	TypeZONEMD, TypeEID, TypeNIMLOC, TypeRRSIG, TypeSIG, TypeNSEC, TypeNXT, TypeCSYNC, TypeNSEC3, TypeNSEC3PARAM, TypeLOC,
 	TypeNID, TypeL64, TypeL32, TypeEUI48, TypeEUI64, TypeUID, TypeGID, TypeURI, TypeCAA, TypeIPSECKEY, TypeAMTRELAY, TypeHIP,
-	TypeTKEY, TypeTSIG, TypeANY, TypeNXNAME,
+	TypeTKEY, TypeTSIG, TypeANY, TypeNXNAME, TypeSVCB, TypeHTTPS, TypeAPL,
 }
 
 // vBuildRR draws a record of type t: returns the record, its full reference wire form, and the generator.
